@@ -15,6 +15,7 @@ import (
 	"os"
 	"os/exec"
 	"path/filepath"
+	"reflect"
 	"sort"
 	"strings"
 	"syscall"
@@ -584,10 +585,48 @@ func decompress(method int, data []byte) ([]byte, error) {
 	return nil, fmt.Errorf("method %d", method)
 }
 
+// sameArchive: two runs of stagemaker on one build root produce the same archive.  Byte equality is
+// asked for, except that a member stagemaker SYNTHESISES (a parent directory that does not exist in
+// the build root) is stamped with the wall clock of its own run: for those, and only those, the
+// time stamp may differ between the two runs; everything else of every header and all data must agree.
+func sameArchive(a, b []byte, root string) bool {
+	if bytes.Equal(a, b) {
+		return true
+	}
+	ra, rb := tar.NewReader(bytes.NewReader(a)), tar.NewReader(bytes.NewReader(b))
+	for {
+		ha, ea := ra.Next()
+		hb, eb := rb.Next()
+		if ea == io.EOF && eb == io.EOF {
+			return true
+		}
+		if ea != nil || eb != nil {
+			return false
+		}
+		if !ha.ModTime.Equal(hb.ModTime) {
+			if _, err := os.Lstat(filepath.Join(root, ha.Name)); err == nil {
+				return false
+			}
+			hb.ModTime = ha.ModTime
+		}
+		ha.AccessTime, hb.AccessTime, ha.ChangeTime, hb.ChangeTime = time.Time{}, time.Time{}, time.Time{}, time.Time{}
+		if !reflect.DeepEqual(ha, hb) {
+			return false
+		}
+		da, _ := io.ReadAll(ra)
+		db, _ := io.ReadAll(rb)
+		if !bytes.Equal(da, db) {
+			return false
+		}
+	}
+}
+
 func Run(in Input) (c *common.Case) {
 	tmp, err := os.MkdirTemp("/var/tmp", "lcv-c07-")
 	must(err)
-	defer os.RemoveAll(tmp)
+	if os.Getenv("LCV_KEEP") == "" {
+		defer os.RemoveAll(tmp)
+	}
 	root := tmp + "/root"
 	must(os.MkdirAll(tmp+"/ext", 0755))
 	buildSkeleton(root)
@@ -757,7 +796,7 @@ func Run(in Input) (c *common.Case) {
 			same := false
 			if crc == 0 {
 				dec, derr := decompress(cs.Method, data)
-				same = derr == nil && bytes.Equal(dec, plain) && (cs.Method == 0 || !bytes.Equal(data, plain))
+				same = derr == nil && sameArchive(dec, plain, root) && (cs.Method == 0 || !bytes.Equal(data, plain))
 			}
 			compItems = append(compItems, "("+q.N(uint64(cs.Method))+", "+q.Bool(same)+")")
 			compDesc = append(compDesc, map[string]interface{}{"method": flagName, "via": cs.Via, "exit": crc, "same": same, "bytes": len(data)})
